@@ -14,7 +14,7 @@
 (*                  by the identity is the identity;                       *)
 (*   GroupAction    Rotate(Rotate(T,R1),R2) = Rotate(T, R2.R1), and        *)
 (*                  rotating back with the transpose restores T, on        *)
-(*                  basis x SmallQuats x PairQ2 (quick: 4 second rotations;*)
+(*                  basis x SmallQuats x PairQ2 (quick: 3 second rotations;*)
 (*                  thorough: all 40 x 40);                                *)
 (*   TricVectorNorm on triclinic matrices x SmallQuats-type rotations the  *)
 (*                  21-vector of the rotated tensor has the same norm;     *)
@@ -26,7 +26,7 @@ CONSTANTS PairQ2,      \* second rotations of the group-action lemma
           TricQuats,   \* rotations applied to the triclinic family
           NTric        \* size of the triclinic family used here
 VARIABLE c
-PairQ2Quick == {<<1, 1, 0, 0>>, <<1, 1, 1, 0>>, <<0, 1, 1, 1>>, <<1, -1, 1, 1>>}
+PairQ2Quick == {<<1, 1, 0, 0>>, <<1, 1, 1, 0>>, <<1, -1, 1, 1>>}
 PairQ2All == SmallQuats
 TricQuatsQuick == {<<1, 1, 1, 0>>, <<1, 1, -1, 1>>, <<2, 1, 0, 0>>, <<1, 0, -2, 0>>, <<2, 1, 1, 0>>,
                    <<1, -1, 0, 2>>, <<2, 1, 1, 1>>, <<1, 2, -1, 1>>}
